@@ -92,7 +92,39 @@ binop("mul", "impl_op_ex", 1, "op_mul_dual2_dual2", "Mul", "mul", "&Dual2", "&Du
       body_start="proof { a.lemma_view_props(); b.lemma_view_props(); }", after=HINT2("Dual2", MUL2, MUL2))
 
 
+def unop(file, macro, k, name, Tr, m, A, C, req, post, props):
+    OPS.append(dict(unary=True, file=file, macro=macro, k=k, name=name, Tr=Tr, m=m, A=A, C=C, req=req, post=post, props=props))
+
+
+def emit_unary(o):
+    s = []
+    s.append(f"// ---- {o['file']}.rs : {o['macro']}! #{o['k']}  ({o['Tr']} {o['A']} -> {o['C']})\n")
+    s.append(f"pub open spec fn {o['name']}_req(a: &{o['A'].lstrip('&')}) -> bool {{ {o['req']} }}\n")
+    s.append(f"pub open spec fn {o['name']}_post(a: &{o['A'].lstrip('&')}, r: &{o['C']}) -> bool {{ {o['post']} }}\n\n")
+    s.append(f"//@ extract rust/dual/dual_ops/{o['file']}.rs :: macro {o['macro']} #{o['k']}\n")
+    s.append(f"//@ rename {o['name']}\n")
+    s.append(f"//@ props {o['props']}\n")
+    s.append("//@ opt ufcs float_lits\n")
+    s.append("//@ subst `f64` => `R64` optional\n")
+    s.append("//@ sig\n")
+    ar = "a" if o['A'].startswith("&") else "&a"
+    s.append(f"    requires {o['name']}_req({ar})\n")
+    s.append(f"    ensures {o['name']}_post({ar}, &r)\n")
+    s.append("//@ end\n")
+    s.append(f"//@ forward1 {o['Tr']} {o['m']} {o['name']} {o['A']} {o['C']}\n\n")
+    return "".join(s)
+
+
+# ---- neg.rs
+unop("neg", "impl_op", 0, "op_neg_dual_owned", "Neg", "neg", "Dual", "Dual", "dual_wf(*a)", "un1_post(a, r, -a.real@, -1real)", "C01")
+unop("neg", "impl_op", 1, "op_neg_dual_ref", "Neg", "neg", "&Dual", "Dual", "dual_wf(*a)", "un1_post(a, r, -a.real@, -1real)", "C01")
+unop("neg", "impl_op", 2, "op_neg_dual2_owned", "Neg", "neg", "Dual2", "Dual2", "dual2_wf(*a)", "un2_post(a, r, -a.real@, -1real, 0real)", "C02")
+unop("neg", "impl_op", 3, "op_neg_dual2_ref", "Neg", "neg", "&Dual2", "Dual2", "dual2_wf(*a)", "un2_post(a, r, -a.real@, -1real, 0real)", "C02")
+
+
 def emit(o):
+    if o.get("unary"):
+        return emit_unary(o)
     s = []
     s.append(f"// ---- {o['file']}.rs : {o['macro']}! #{o['k']}  ({o['A']} {o['Tr']} {o['B']} -> {o['C']})\n")
     s.append(f"pub open spec fn {o['name']}_req(a: {o['A']}, b: {o['B']}) -> bool {{ {o['req']} }}\n")
